@@ -831,9 +831,12 @@ impl World {
 					let l = &mut g.locks[lock as usize];
 					let only_phantoms = l.excl.map_or(true, |t| t >= PHANTOM)
 						&& l.shared.iter().all(|t| *t >= PHANTOM);
-					if l.auto_release && only_phantoms {
+					let had_something = l.excl.is_some() || !l.shared.is_empty() || l.waiters.iter().any(|(t, _)| *t >= PHANTOM);
+					if l.auto_release && only_phantoms && had_something {
+						// the phantom holders - and any phantom writer queued behind them - let go
 						l.excl = None;
 						l.shared.clear();
+						l.waiters.retain(|(t, _)| *t < PHANTOM);
 						g.stats.phantom_autorelease += 1;
 						continue;
 					}
